@@ -1,23 +1,24 @@
 """Facts for C16 (rdump output is the specified slice of the filtered input) -> coq/gen/Gen_rdump.v.
 
-Everything here is a *shape* of flow/record/tools/rdump.py main() or flow/record/stream.py record_stream(), read
-with `ast` (the parser is built inside main(), so nothing can be read from a live object):
+The facts are OBSERVED: vf/factgen/_c16_observe.py runs rdump.main, record_stream and iter_timestamped_records on
+purpose-built probes (logging stubs in place of RecordWriter / record_stream / RecordFieldRewriter /
+iter_timestamped_records / RecordReader, probe records that log assignments, the live argparse parser) and reads off
 
-* `uri = args.writer or <default>`, the `mode_to_uri` table, the query parameters (names, order, source option),
-  the comprehension that drops empty values, and the joining rule of the `uri +=` statement -- parenthesised
-  conditional (correct) versus `"&" if ... else "?" + query` (the precedence bug);
-* the --split rewriting of the URI (prefixes, keys, the guard and the usage error);
-* the islice stop expression and its guard, the arguments of islice / record_stream / make_selector;
-* the per-record steps between `try:` and `finally:` (overrides, rewriter, list mode, multi-timestamp, write), their
-  order, the condition under which the rewriter is installed, and that `record_writer.__exit__()` is the `finally`;
-* argparse defaults of --skip / --count / --suffix-length;
-* iter_timestamped_records (base.py): which reserved fields are copied from the original record onto each expanded
-  record;
-* record_stream: the loop over the sources, that records are yielded while the source is read, the `except`
-  clauses in order and what each does with the loop (continue / stop / propagate).
+* the writer URI for every --mode x -F x -X x -f combination, with -w, with --split / --suffix-length: mode table,
+  default URI, query parameter names / order / source option, the joining rule that explains all of them, split
+  prefixes and keys, the usage error for --split without -w, `--split 0`;
+* the skip/count window (which of the model's stop expressions explains the writes on a skip x count grid), the
+  engine handed to record_stream with and without -n, which options install the rewriter and with which arguments,
+  override guards and the order override / rewrite / write per record, what --multi-timestamp and -l write, that the
+  writer is flushed and closed when a write raises, that the writes do not depend on the output options;
+* record_stream: what an IOError / another exception while opening / reading a source does to the later sources,
+  that the intact prefix is yielded lazily, that the selector reaches the reader;
+* iter_timestamped_records: which reserved fields the expanded records take from the original;
+* argparse defaults of --skip / --count / --split / --suffix-length and the --mode choices.
 
-Local variables are resolved through their (single) assignment, so renaming one is harmless.  Fail closed: any
-statement the recognisers below do not know raises Unsupported.
+The `ast` recognisers below are a CROSS-CHECK: they follow private helpers called from main() one level and resolve
+module constants; a recognised shape that contradicts the observation is a broken tie (Unsupported, fail closed), an
+unrecognised spelling is only noted in the generated file.
 """
 from __future__ import annotations
 
@@ -79,15 +80,6 @@ class MainFacts:
                 return self.resolve(vals[0], depth + 1)
         return node
 
-    # ---- option -> which command-line text
-    def text_option(self, node):
-        """args.fields / args.exclude / args.format"""
-        node = self.resolve(node)
-        for attr, q in (("fields", "QFields"), ("exclude", "QExclude"), ("format", "QFormat")):
-            if _is_args(node, attr):
-                return q
-        self.bad(node, "query parameter value is not args.fields/args.exclude/args.format: %s" % _dump(node))
-
     def comma_split_of(self, node, attr):
         """args.<attr>.split(",") if args.<attr> else []"""
         node = self.resolve(node)
@@ -97,183 +89,6 @@ class MainFacts:
               and len(node.body.args) == 1 and _const_str(node.body.args[0]) and node.body.args[0].value == ","
               and isinstance(node.orelse, ast.List) and not node.orelse.elts)
         return ok
-
-    # ---- the URI part
-    def uri_facts(self):
-        body = self.main.body
-        out = {}
-        idx = None
-        for i, st in enumerate(body):
-            if isinstance(st, ast.Assign) and len(st.targets) == 1 and isinstance(st.targets[0], ast.Name) \
-                    and st.targets[0].id == "uri" and isinstance(st.value, ast.BoolOp) and isinstance(st.value.op, ast.Or):
-                v = st.value
-                if not (len(v.values) == 2 and _is_args(v.values[0], "writer") and _const_str(v.values[1])):
-                    self.bad(st, "uri = ... is not `args.writer or <text>`")
-                out["default_uri"] = v.values[1].value
-                idx = i
-                break
-        if idx is None:
-            raise Unsupported("%s: no `uri = args.writer or <text>` statement in main" % self.where)
-        nxt = body[idx + 1]
-        if not (isinstance(nxt, ast.If) and isinstance(nxt.test, ast.UnaryOp) and isinstance(nxt.test.op, ast.Not)
-                and _is_args(nxt.test.operand, "writer") and not nxt.orelse):
-            self.bad(nxt, "the statement after `uri = ...` is not `if not args.writer:`")
-        table = qparams = None
-        got_get = got_query = False
-        join = None
-        query_name = None
-        table_name = qparams_name = None
-        for st in nxt.body:
-            if isinstance(st, ast.Assign) and len(st.targets) == 1 and isinstance(st.targets[0], ast.Name):
-                tgt, v = st.targets[0].id, st.value
-                if isinstance(v, ast.Dict) and all(_const_str(k) for k in v.keys) and all(_const_str(x) for x in v.values) and table is None and tgt != "uri":
-                    table = [(k.value, x.value) for k, x in zip(v.keys, v.values)]
-                    table_name = tgt
-                    continue
-                if isinstance(v, ast.Dict) and all(_const_str(k) for k in v.keys) and qparams is None and tgt != "uri":
-                    qparams = [(k.value, self.text_option(x)) for k, x in zip(v.keys, v.values)]
-                    qparams_name = tgt
-                    continue
-                if tgt == "uri" and isinstance(v, ast.Call) and isinstance(v.func, ast.Attribute) and v.func.attr == "get" \
-                        and isinstance(v.func.value, ast.Name) and v.func.value.id == table_name and len(v.args) == 2 \
-                        and _is_args(v.args[0], "mode") and isinstance(v.args[1], ast.Name) and v.args[1].id == "uri" \
-                        and not v.keywords:
-                    got_get = True
-                    continue
-                if isinstance(v, ast.Call) and _call_name(v) == "urlencode" and len(v.args) == 1 and not v.keywords and tgt != "uri":
-                    c = v.args[0]
-                    # {k: v for k, v in qparams.items() if v}
-                    ok = (isinstance(c, ast.DictComp) and len(c.generators) == 1
-                          and isinstance(c.generators[0].target, ast.Tuple) and len(c.generators[0].target.elts) == 2
-                          and all(isinstance(e, ast.Name) for e in c.generators[0].target.elts))
-                    if ok:
-                        g = c.generators[0]
-                        kn, vn = [e.id for e in g.target.elts]
-                        ok = (isinstance(c.key, ast.Name) and c.key.id == kn and isinstance(c.value, ast.Name) and c.value.id == vn
-                              and len(g.ifs) == 1 and isinstance(g.ifs[0], ast.Name) and g.ifs[0].id == vn
-                              and isinstance(g.iter, ast.Call) and isinstance(g.iter.func, ast.Attribute)
-                              and g.iter.func.attr == "items" and isinstance(g.iter.func.value, ast.Name)
-                              and g.iter.func.value.id == qparams_name and not g.iter.args)
-                    if not ok:
-                        self.bad(st, "query is not urlencode({k: v for k, v in <qparams>.items() if v})")
-                    got_query = True
-                    query_name = tgt
-                    continue
-                if tgt == "uri" and isinstance(v, ast.BinOp) and isinstance(v.op, ast.Add) and join is None:
-                    # uri = uri + X   /  uri = (uri + A) + B
-                    join = self.join_shape(self.strip_uri(v, st), query_name, st)
-                    continue
-            if isinstance(st, ast.AugAssign) and isinstance(st.target, ast.Name) and st.target.id == "uri" \
-                    and isinstance(st.op, ast.Add) and join is None:
-                join = self.join_shape(st.value, query_name, st)
-                continue
-            self.bad(st, "unrecognised statement in the `if not args.writer:` block: %s" % ast.unparse(st)[:80])
-        if table is None or qparams is None or not got_get or not got_query or join is None:
-            self.bad(nxt, "the `if not args.writer:` block lacks one of: mode table, table lookup, query parameters, "
-                          "urlencode, joining statement")
-        out.update(table=table, qparams=qparams, join=join)
-        # --split block
-        sp = body[idx + 2]
-        out.update(self.split_facts(sp))
-        return out
-
-    def strip_uri(self, binop, st):
-        """`uri + X` -> X ;  `(uri + A) + B` -> BinOp(A + B) is NOT the same tree, so keep Python's own reading:
-        (uri + A) + B appends A then B: equivalent to uri += (A) + B only when A is the conditional."""
-        l, r = binop.left, binop.right
-        if isinstance(l, ast.Name) and l.id == "uri":
-            return r
-        if isinstance(l, ast.BinOp) and isinstance(l.op, ast.Add) and isinstance(l.left, ast.Name) and l.left.id == "uri":
-            return ast.BinOp(left=l.right, op=ast.Add(), right=r)
-        self.bad(st, "uri = <expr> is not uri + ...")
-
-    def _is_sep_test(self, test):
-        """urlparse(uri).query"""
-        return (isinstance(test, ast.Attribute) and test.attr == "query" and isinstance(test.value, ast.Call)
-                and _call_name(test.value) == "urlparse" and len(test.value.args) == 1
-                and isinstance(test.value.args[0], ast.Name) and test.value.args[0].id == "uri")
-
-    def join_shape(self, rhs, query_name, st):
-        def is_query(n):
-            return isinstance(n, ast.Name) and n.id == query_name
-        # (SEP if test else SEP2) + query
-        if isinstance(rhs, ast.BinOp) and isinstance(rhs.op, ast.Add) and isinstance(rhs.left, ast.IfExp) and is_query(rhs.right):
-            c = rhs.left
-            if self._is_sep_test(c.test) and _const_str(c.body) and c.body.value == "&" and _const_str(c.orelse) and c.orelse.value == "?":
-                return "JoinParen"
-        # SEP if test else (SEP2 + query)
-        if isinstance(rhs, ast.IfExp) and self._is_sep_test(rhs.test) and _const_str(rhs.body) and rhs.body.value == "&" \
-                and isinstance(rhs.orelse, ast.BinOp) and isinstance(rhs.orelse.op, ast.Add) \
-                and _const_str(rhs.orelse.left) and rhs.orelse.left.value == "?" and is_query(rhs.orelse.right):
-            return "JoinUnparen"
-        self.bad(st, "unrecognised joining rule: %s" % ast.unparse(st)[:100])
-
-    def split_facts(self, sp):
-        if not (isinstance(sp, ast.If) and _is_args(sp.test, "split") and not sp.orelse):
-            self.bad(sp, "expected `if args.split:` after the `if not args.writer:` block")
-        b = sp.body
-        out = {}
-        # if not args.writer: parser.error(...)
-        g = b[0]
-        if not (isinstance(g, ast.If) and isinstance(g.test, ast.UnaryOp) and isinstance(g.test.op, ast.Not)
-                and _is_args(g.test.operand, "writer") and len(g.body) == 1 and isinstance(g.body[0], ast.Expr)
-                and _call_name(g.body[0].value) == "error" and not g.orelse):
-            self.bad(g, "--split without -w is not a parser.error")
-        # uri = f"split://{uri}" if "://" not in uri else f"split+{uri}"
-        st = b[1]
-
-        def fprefix(js):
-            if isinstance(js, ast.JoinedStr) and len(js.values) == 2 and _const_str(js.values[0]) \
-                    and isinstance(js.values[1], ast.FormattedValue) and isinstance(js.values[1].value, ast.Name) \
-                    and js.values[1].value.id == "uri" and js.values[1].conversion == -1 and js.values[1].format_spec is None:
-                return js.values[0].value
-            if isinstance(js, ast.BinOp) and isinstance(js.op, ast.Add) and _const_str(js.left) \
-                    and isinstance(js.right, ast.Name) and js.right.id == "uri":
-                return js.left.value
-            self.bad(st, "split prefix expression: %s" % ast.unparse(js))
-        ok = (isinstance(st, ast.Assign) and len(st.targets) == 1 and isinstance(st.targets[0], ast.Name) and st.targets[0].id == "uri"
-              and isinstance(st.value, ast.IfExp) and isinstance(st.value.test, ast.Compare) and len(st.value.test.ops) == 1
-              and _const_str(st.value.test.left) and st.value.test.left.value == "://"
-              and isinstance(st.value.test.comparators[0], ast.Name) and st.value.test.comparators[0].id == "uri")
-        if not ok:
-            self.bad(st, "split URI prefixing statement not recognised")
-        if isinstance(st.value.test.ops[0], ast.NotIn):
-            out["split_noscheme"], out["split_scheme"] = fprefix(st.value.body), fprefix(st.value.orelse)
-        elif isinstance(st.value.test.ops[0], ast.In):
-            out["split_scheme"], out["split_noscheme"] = fprefix(st.value.body), fprefix(st.value.orelse)
-        else:
-            self.bad(st, "split URI prefix test")
-        # parsed = urlparse(uri); query_dict = dict(parse_qsl(parsed.query)); query_dict.update({...});
-        # query = urlencode(query_dict); uri = parsed.scheme + "://" + parsed.netloc + parsed.path + "?" + query
-        src = [ast.unparse(x) for x in b[2:]]
-        if len(b) != 7:
-            self.bad(sp, "the --split block has %d statements, expected 7" % len(b))
-        p, qd, upd, q, u = b[2:]
-        ok = (isinstance(p, ast.Assign) and isinstance(p.value, ast.Call) and _call_name(p.value) == "urlparse"
-              and len(p.value.args) == 1 and isinstance(p.value.args[0], ast.Name) and p.value.args[0].id == "uri"
-              and not p.value.keywords)
-        pn = p.targets[0].id if ok and isinstance(p.targets[0], ast.Name) else None
-        ok = ok and pn is not None
-        ok = ok and ast.unparse(qd.value if isinstance(qd, ast.Assign) else qd) == "dict(parse_qsl(%s.query))" % pn
-        qdn = qd.targets[0].id if ok and isinstance(qd, ast.Assign) and isinstance(qd.targets[0], ast.Name) else None
-        ok = ok and qdn is not None
-        keys = None
-        if ok and isinstance(upd, ast.Expr) and isinstance(upd.value, ast.Call) and isinstance(upd.value.func, ast.Attribute) \
-                and upd.value.func.attr == "update" and isinstance(upd.value.func.value, ast.Name) and upd.value.func.value.id == qdn \
-                and len(upd.value.args) == 1 and isinstance(upd.value.args[0], ast.Dict) and len(upd.value.args[0].keys) == 2:
-            d = upd.value.args[0]
-            if all(_const_str(k) for k in d.keys) and _is_args(d.values[0], "split") and _is_args(d.values[1], "suffix_length"):
-                keys = (d.keys[0].value, d.keys[1].value)
-        ok = ok and keys is not None
-        ok = ok and isinstance(q, ast.Assign) and ast.unparse(q.value) == "urlencode(%s)" % qdn and isinstance(q.targets[0], ast.Name)
-        if ok:
-            qn = q.targets[0].id
-            ok = isinstance(u, ast.Assign) and isinstance(u.targets[0], ast.Name) and u.targets[0].id == "uri" \
-                and ast.unparse(u.value) == "%s.scheme + '://' + %s.netloc + %s.path + '?' + %s" % (pn, pn, pn, qn)
-        if not ok:
-            self.bad(sp, "the --split block is not the recognised urlparse/parse_qsl/update/urlencode/rebuild sequence: %s" % " ; ".join(src)[:300])
-        out["split_keys"] = keys
-        return out
 
     # ---- argparse defaults
     def argparse_defaults(self):
@@ -684,22 +499,197 @@ def expand_facts():
     return copied
 
 
+# ------------------------------------------------------------------------------------------------------
+# tolerant recognisers used only as a cross-check of the observed URI facts
+
+def _scope_functions(tree, main):
+    """main plus the module-level functions main calls by name (one level)"""
+    fns = {n.name: n for n in tree.body if isinstance(n, ast.FunctionDef)}
+    called = []
+    for n in ast.walk(main):
+        if isinstance(n, ast.Call) and isinstance(n.func, ast.Name) and n.func.id in fns and n.func.id != main.name:
+            if fns[n.func.id] not in called:
+                called.append(fns[n.func.id])
+    return [main] + called
+
+
+def _module_consts(tree):
+    out = {}
+    for n in tree.body:
+        if isinstance(n, ast.Assign) and len(n.targets) == 1 and isinstance(n.targets[0], ast.Name):
+            out[n.targets[0].id] = n.value
+    return out
+
+
+def uri_shapes(tree, main):
+    """What the source says about the writer URI, as far as it is spelled in a known way: any subset of
+    join / table / default_uri / split_noscheme / split_scheme / split_keys."""
+    consts = _module_consts(tree)
+    scope = _scope_functions(tree, main)
+    nodes = [n for f in scope for n in ast.walk(f)]
+
+    def val(n):
+        if isinstance(n, ast.Name) and n.id in consts:
+            return consts[n.id]
+        return n
+
+    def is_sep_test(t):
+        return (isinstance(t, ast.Attribute) and t.attr == "query" and isinstance(t.value, ast.Call)
+                and _call_name(t.value) == "urlparse" and len(t.value.args) == 1)
+
+    out = {}
+    joins = set()
+    for n in nodes:
+        if isinstance(n, ast.BinOp) and isinstance(n.op, ast.Add) and isinstance(n.left, ast.IfExp) and is_sep_test(n.left.test) \
+                and _const_str(n.left.body) and _const_str(n.left.orelse) and (n.left.body.value, n.left.orelse.value) == ("&", "?"):
+            joins.add("JoinParen")
+        if isinstance(n, ast.IfExp) and is_sep_test(n.test) and _const_str(n.body) and n.body.value == "&" \
+                and isinstance(n.orelse, ast.BinOp) and isinstance(n.orelse.op, ast.Add) and _const_str(n.orelse.left) \
+                and n.orelse.left.value == "?":
+            joins.add("JoinUnparen")
+        if isinstance(n, ast.Assign) and isinstance(n.value, ast.IfExp) and is_sep_test(n.value.test) and _const_str(n.value.body) \
+                and _const_str(n.value.orelse) and (n.value.body.value, n.value.orelse.value) == ("&", "?"):
+            joins.add("JoinParen")      # the separator is computed on its own, then appended
+    if len(joins) == 1:
+        out["join"] = joins.pop()
+    tables = []
+    for n in nodes + list(consts.values()):
+        n = val(n)
+        if isinstance(n, ast.Dict) and n.keys and all(_const_str(k) for k in n.keys) and all(_const_str(v) and "://" in v.value for v in n.values):
+            t = [(k.value, v.value) for k, v in zip(n.keys, n.values)]
+            if t not in tables:
+                tables.append(t)
+    if len(tables) == 1:
+        out["table"] = sorted(tables[0])
+    defaults = set()
+    for n in nodes:
+        if isinstance(n, ast.BoolOp) and isinstance(n.op, ast.Or) and len(n.values) == 2 and _is_args(n.values[0], "writer") \
+                and _const_str(val(n.values[1])):
+            defaults.add(val(n.values[1]).value)
+        if isinstance(n, ast.Call) and isinstance(n.func, ast.Attribute) and n.func.attr == "get" and len(n.args) == 2 \
+                and _is_args(n.args[0], "mode") and _const_str(val(n.args[1])):
+            defaults.add(val(n.args[1]).value)
+    if len(defaults) == 1:
+        out["default_uri"] = defaults.pop()
+
+    def prefix_of(e):
+        if isinstance(e, ast.JoinedStr) and len(e.values) == 2 and _const_str(e.values[0]) and isinstance(e.values[1], ast.FormattedValue):
+            return e.values[0].value
+        if isinstance(e, ast.BinOp) and isinstance(e.op, ast.Add) and _const_str(e.left):
+            return e.left.value
+        return None
+    for n in nodes:
+        if isinstance(n, ast.IfExp) and isinstance(n.test, ast.Compare) and len(n.test.ops) == 1 and _const_str(n.test.left) \
+                and n.test.left.value == "://" and prefix_of(n.body) is not None and prefix_of(n.orelse) is not None:
+            if isinstance(n.test.ops[0], ast.NotIn):
+                out["split_noscheme"], out["split_scheme"] = prefix_of(n.body), prefix_of(n.orelse)
+            elif isinstance(n.test.ops[0], ast.In):
+                out["split_scheme"], out["split_noscheme"] = prefix_of(n.body), prefix_of(n.orelse)
+        if isinstance(n, ast.Call) and isinstance(n.func, ast.Attribute) and n.func.attr == "update" and len(n.args) == 1 \
+                and isinstance(n.args[0], ast.Dict) and len(n.args[0].keys) == 2 and all(_const_str(k) for k in n.args[0].keys):
+            out["split_keys"] = (n.args[0].keys[0].value, n.args[0].keys[1].value)
+    return out
+
+
+def loop_args_of(main):
+    """args.<x> read from the statement that opens the writer to the end of main()"""
+    idx = None
+    for i, st in enumerate(main.body):
+        if any(isinstance(n, ast.Call) and _call_name(n) == "RecordWriter" for n in ast.walk(st)):
+            idx = i
+            break
+    if idx is None:
+        return None
+    la = []
+    for st in main.body[idx:]:
+        for n in ast.walk(st):
+            if _is_args(n) and n.attr not in la:
+                la.append(n.attr)
+    return la
+
+
+def _handler_action(hs, exn):
+    io_names = ("IOError", "OSError", "EnvironmentError", "Exception", "BaseException")
+    other = ("Exception", "BaseException")
+    for name, act in hs:
+        if name in (io_names if exn == "io" else other):
+            return act
+    return "Propagate"
+
+
 def gen_rdump():
+    """Facts = OBSERVED behaviour of rdump.main / record_stream / iter_timestamped_records on probes
+    (vf/factgen/_c16_observe.py); the ast recognisers are a cross-check: a recognised shape that contradicts the
+    observation is a broken tie (Unsupported), an unrecognised spelling is noted in the generated file."""
     import flow.record.tools.rdump as rdump_mod
+    from vf.factgen import _c16_observe as ob
     where = "flow/record/tools/rdump.py main"
+    pf = ob.parser_facts()
+    u = ob.uri_facts(pf["modes"])
+    r = ob.record_facts()
+    s = ob.stream_facts()
+    em = ob.expand_facts()
+    d = {"--skip": pf["--skip"], "--suffix-length": pf["--suffix-length"]}
+    notes = []
+
+    def contradiction(what, seen, observed):
+        raise Unsupported("%s: the source spells %r but the observed behaviour is %r" % (what, seen, observed))
+
+    def crosscheck(label, fn, pairs):
+        """pairs: (key, observed value, normaliser)"""
+        try:
+            a = fn()
+        except Unsupported as e:
+            notes.append("%s: shape not recognised (%s); observed behaviour used" % (label, str(e)[:160]))
+            return None
+        for key, observed in pairs:
+            if key in a and a[key] != observed:
+                contradiction("%s / %s" % (label, key), a[key], observed)
+        return a
+
     tree = ast.parse(Path(rdump_mod.__file__).read_text())
-    mf = MainFacts(tree, where)
-    u = mf.uri_facts()
-    d = mf.argparse_defaults()
-    r = mf.record_facts()
-    s = stream_facts()
-    em = expand_facts()
+    loop_args = None
+    try:
+        mf = MainFacts(tree, where)
+    except Unsupported as e:
+        mf = None
+        notes.append("rdump.main: %s; observed behaviour used" % e)
+    if mf is not None:
+        a = crosscheck("writer URI", lambda: uri_shapes(tree, mf.main),
+                       [("join", u["join"]), ("table", sorted(u["table"])), ("default_uri", u["default_uri"]),
+                        ("split_noscheme", u["split_noscheme"]), ("split_scheme", u["split_scheme"]), ("split_keys", u["split_keys"])])
+        missing = [k for k in ("join", "table", "default_uri", "split_noscheme", "split_keys") if a is not None and k not in a]
+        if missing:
+            notes.append("writer URI: %s not recognised in the source; observed behaviour used" % ", ".join(missing))
+        if a is not None and a.get("join") is None and u["join_ambiguous"]:
+            notes.append("writer URI: no mode URI has a query, the two joining rules cannot be told apart")
+        crosscheck("argparse defaults", mf.argparse_defaults, [("--skip", d["--skip"]), ("--suffix-length", d["--suffix-length"])])
+        crosscheck("per-record steps of main", mf.record_facts,
+                   [(k, r[k]) for k in ("stop_guard", "stop_expr", "compile_flag", "order", "rewriter_cond", "override_guards",
+                                        "multi", "finally_exit")])
+        loop_args = loop_args_of(mf.main)
+    if loop_args is None:
+        # the writes were observed to be the same for every output option (record_facts); nothing to list
+        notes.append("rdump.main: the statement that opens the writer was not found; dataflow taken from the observed writes")
+        loop_args = []
+    ob.writes_independent_of_output(pf["modes"])
+
+    def ast_stream():
+        x = stream_facts()
+        return dict(io=_handler_action(x["handlers"], "io"), other=_handler_action(x["handlers"], "other"), per=x["yield_per_record"])
+    crosscheck("record_stream", ast_stream, [("io", s["handlers"][0][1]), ("other", s["handlers"][1][1]), ("per", s["yield_per_record"])])
+    crosscheck("iter_timestamped_records", lambda: dict(copied=sorted(expand_facts())), [("copied", sorted(em))])
+
     for k, v in u["table"] + [("", u["default_uri"])]:
         if not all(32 <= ord(c) < 127 for c in k + v):
             raise Unsupported("%s: non-ASCII mode table entry" % where)
     out = HEADER
     out += "From Coq Require Import List Bool String NArith.\nImport ListNotations.\nFrom FR Require Import Rdump.\nOpen Scope string_scope.\n\n"
-    out += "(* flow/record/tools/rdump.py main() and flow/record/stream.py record_stream(): shapes read with ast *)\n"
+    out += "(* flow/record/tools/rdump.py main(), flow/record/stream.py record_stream(), flow/record/base.py\n"
+    out += "   iter_timestamped_records(): OBSERVED on probes (logging stubs for RecordWriter / record_stream / RecordFieldRewriter /\n"
+    out += "   iter_timestamped_records / RecordReader, probe records), cross-checked against the source's shape where recognised *)\n"
+    for nte in notes:
+        out += "(* note: %s *)\n" % nte.replace("*)", "* )").replace("(*", "( *")
     out += "Definition rdump_facts : facts :=\n  {|\n"
     fields = [
         ("f_default_uri", cstr(u["default_uri"])),
@@ -721,11 +711,9 @@ def gen_rdump():
         ("f_split_noscheme", cstr(u["split_noscheme"])),
         ("f_split_scheme", cstr(u["split_scheme"])),
         ("f_split_keys", cpair(cstr(u["split_keys"][0]), cstr(u["split_keys"][1]))),
-        ("f_loop_args", clist([cstr(a) for a in r["loop_args"]])),
+        ("f_loop_args", clist([cstr(a) for a in loop_args])),
         ("f_expand_meta", clist([cstr(a) for a in em])),
     ]
-    if d["--skip"] > 1000:
-        raise Unsupported("%s: default of --skip is %d" % (where, d["--skip"]))
     out += ";\n".join("    %s := %s" % kv for kv in fields) + "\n  |}.\n"
     write_if_changed(GEN / "Gen_rdump.v", out)
 
